@@ -24,6 +24,7 @@ Next ==
   \/ Step(stype = "data" /\ \E r \in DataRecs : \E p \in {"copy", "extra", "adopt"} : AddRecord(p, hdrId, r.fields, r.vals))
   \/ Step(stype = "template" /\ \E f \in TmplRecs : \E p \in {"copy", "extra", "adopt"} : \E id \in {256, 257} : AddRecord(p, id, f, << >>))
   \/ Step(AddRecordUnprepared)
+  \/ Step(AddRecordRefused)
   \/ Step(UpdateLen)
   \/ Step(Reset)
 Spec == Init /\ [][Next]_<<sbvars, k>>
